@@ -30,6 +30,7 @@ def load(path):
 
 C = load(os.path.join(VERIF, 'contracts', 'datatypes.py'))
 from frappy import datatypes as D          # noqa: E402
+ImmutableDict = D.ImmutableDict
 from frappy.errors import BadValueError    # noqa: E402
 from frappy.lib.enum import Enum           # noqa: E402
 
@@ -93,6 +94,7 @@ def candidates(dt, rng, depth=0):
         good = [v for v in inner if _ok(dt.members, v)][:4]
         vals += [[], (), [inner[0]], tuple(good[:1]), good[:2], tuple(good[:2]), good[:3], [good[0], 'x'] if good else ['x'],
                  'ab', {'a': 1}, b'ab', [None]]
+        vals += [[x] for x in inner if isinstance(x, ImmutableDict)][-3:]
     elif isinstance(dt, D.TupleOf):
         per = [[v for v in candidates(m, rng, depth + 1) if _ok(m, v)][:3] or [0] for m in dt.members]
         vals += [list(p) for p in itertools.islice(itertools.product(*per), 6)]
@@ -103,6 +105,11 @@ def candidates(dt, rng, depth=0):
         full = {k: v[0] for k, v in per.items()}
         vals += [full, {k: v[-1] for k, v in per.items()}, {'a': per['a'][0]}, {'b': per['b'][0]}, {}, {'a': None}, {'a': per['a'][0], 'b': None},
                  dict(full, c=1), [('a', 1)], 'a', [['a', 1]], {'a': 'x', 'b': 'y'}]
+        # immutable structs as drivers hand them back (results of another datatype's __call__ / validate): members are NOT known to be valid
+        allv = {k: candidates(m, rng, depth + 1) for k, m in dt.members.items()} if depth < 2 else per
+        badv = {k: [v for v in vs if C.in_universe(v) and not _ok(dt.members[k], v)][:2] for k, vs in allv.items()}
+        vals += [ImmutableDict(x) for x in vals if isinstance(x, dict)]
+        vals += [ImmutableDict(dict(full, **{k: b})) for k, bs in badv.items() for b in bs]
     return vals
 
 
